@@ -8,7 +8,8 @@ from . import common, gen, shtools, project, projgen, ninjaparse, c06cdb
 
 LEVEL = 'proof'
 RULE = ('generated projects (libraries of all kinds, executables using them, per-target and global options with adversarial '
-        'argument strings, command() with environment, multi-output build_step, copy_file, alias, default) under generated configure '
+        'argument strings, yacc sources translated by a two-output step and by a one-output step with options of their own (stand-in tool '
+        'harness/stubs/yacc), command() with environment, multi-output build_step, copy_file, alias, default) under generated configure '
         'options (library mode, prefix, CFLAGS/LDFLAGS/CPPFLAGS/LDLIBS from the environment), plain and odd file names; a case = one '
         'step of one project compared across backends; non-trivial when its argv contains a character outside [A-Za-z0-9_./=-]. '
         'W:emit: random scripts driven through the real builtins in an in-process build context (compile with header objects / pch / '
@@ -447,6 +448,16 @@ def declared_vs_delivered(rep, rng, idx, backend, odd_names=False):
                 if hit and not contains_sublist(hit[0], want):
                     bad += rep.fail('%s backend: compile options %r of %s are delivered as %r' % (backend, want, st['source'], hit[0]),
                                     {'script': p.script(), 'declared': want, 'delivered': hit[0]}, classes=semicolon_class(backend, st['options']))
+            elif st['kind'] == 'generate':
+                # a source translated to C first (yacc): the step's own options reach the translator, whichever target's
+                # recipe the backend runs it from
+                src = os.path.join(s.src, st['source'])
+                hit = [a for a in argvs if src in a]
+                rep.case('sys:%s:gen:%s:%r' % (backend, st['source'], st['options']), bool(st['options']))
+                rep.count('system:generate step, %d output(s)' % len(st['outputs']))
+                if not hit or not contains_sublist(hit[0], st['options']):
+                    bad += rep.fail('%s backend: options %r of the generated source %s are delivered as %r' % (backend, st['options'], st['source'], hit[:1]),
+                                    {'script': p.script(), 'declared': st['options'], 'delivered': hit[:1]}, classes=semicolon_class(backend, st['options']))
             elif st['kind'] == 'link' and st.get('options'):
                 hit = [a for a in argvs if a and '-o' in a and a[-1].endswith(st['name'])]
                 rep.case('sys:%s:ld:%s' % (backend, st['name']), True)
